@@ -25,6 +25,7 @@ type gCfg struct {
 	host, srflxStun, srflxMapped, relay bool
 	udpMux, udpMuxSrflx                 bool
 	tcpMux                              bool
+	relayTCP                            bool // TURN over TCP (turn:...?transport=tcp)
 	nIPs                                int
 	ifaceFilter                         bool
 	stunTimeout                         time.Duration
@@ -33,8 +34,8 @@ type gCfg struct {
 }
 
 func (g gCfg) String() string {
-	return fmt.Sprintf("host=%v srflx=%v mapped=%v relay=%v udpMux=%v muxSrflx=%v tcpMux=%v ips=%d filter=%v stunTO=%v urls2=%v",
-		g.host, g.srflxStun, g.srflxMapped, g.relay, g.udpMux, g.udpMuxSrflx, g.tcpMux, g.nIPs, g.ifaceFilter, g.stunTimeout, g.twoStunURLs)
+	return fmt.Sprintf("host=%v srflx=%v mapped=%v relay=%v udpMux=%v muxSrflx=%v tcpMux=%v relayTCP=%v ips=%d filter=%v stunTO=%v urls2=%v",
+		g.host, g.srflxStun, g.srflxMapped, g.relay, g.udpMux, g.udpMuxSrflx, g.tcpMux, g.relayTCP, g.nIPs, g.ifaceFilter, g.stunTimeout, g.twoStunURLs)
 }
 
 func drawGCfg(t *tape.Tape) gCfg {
@@ -51,6 +52,7 @@ func drawGCfg(t *tape.Tape) gCfg {
 	g.twoStunURLs = g.srflxStun && t.Bias(1, 3, "urls2")
 	g.parkAllocate = t.Bias(1, 2, "parkalloc")
 	g.tcpMux = g.host && t.Bias(1, 4, "tcpmux")
+	g.relayTCP = g.relay && t.Bias(1, 3, "relaytcp")
 	if !g.host && !g.srflxStun && !g.srflxMapped && !g.relay {
 		g.host = true
 	}
@@ -122,6 +124,11 @@ func newGRig(c *core.Ctx, t *tape.Tape, cfg gCfg, extra ...ice.AgentOption) (*gR
 	}
 	if cfg.relay {
 		u, _ := stun.ParseURI("turn:203.0.113.5:3478?transport=udp")
+		if cfg.relayTCP {
+			u, _ = stun.ParseURI("turn:203.0.113.5:3478?transport=tcp")
+			g.W.TCPServers = append(g.W.TCPServers, netip.MustParseAddrPort("203.0.113.5:3478"))
+			opts = append(opts, ice.WithTURNTransportProtocols([]ice.NetworkType{ice.NetworkTypeTCP4}))
+		}
 		u.Username, u.Password = "user", "pass"
 		urls = append(urls, u)
 	}
